@@ -340,6 +340,24 @@ impl Prop for C02 {
             })
             .boxed()
     }
+    fn fuzz_sanitize(k: &mut AccessCase) -> bool {
+        k.cols %= 9;
+        k.rows %= 9;
+        let fix = |m: &mut [u8; 4]| m.iter_mut().for_each(|x| *x %= 4);
+        match &mut k.recv {
+            IRecv::M(rv) => {
+                fix(&mut rv.m);
+                fix(&mut rv.m2);
+            }
+            IRecv::View(m) => fix(m),
+            IRecv::NestedView(a, b) | IRecv::ViewOfViewMut(a, b) => {
+                fix(a);
+                fix(b);
+            }
+            IRecv::Slice(s) => *s %= 9,
+        }
+        true
+    }
     fn random_cases(tier: Tier) -> u64 {
         if tier == Tier::Quick { 60_000 } else { 3_000_000 }
     }
@@ -668,6 +686,25 @@ impl Prop for C03 {
                 WindowCase { cols, rows, root, chain }
             })
             .boxed()
+    }
+    fn fuzz_sanitize(k: &mut WindowCase) -> bool {
+        k.cols %= 9;
+        k.rows %= 9;
+        k.chain.truncate(4);
+        let mut shared = matches!(k.root, Root::SliceView(_));
+        for l in k.chain.iter_mut() {
+            if shared {
+                l.mutable = false;
+            }
+            if !l.mutable {
+                shared = true;
+            }
+        }
+        match &mut k.root {
+            Root::SliceView(s) | Root::SliceViewMut(s) => *s %= 9,
+            _ => {}
+        }
+        !k.chain.is_empty()
     }
     fn random_cases(tier: Tier) -> u64 {
         if tier == Tier::Quick { 60_000 } else { 2_000_000 }
